@@ -13,6 +13,8 @@ CFG = cfg('C07', extract='Ex_C07', driver='c07',
                'revoker / bind / decrypt on derived, loaded (binary, armored), subkey, locked, unlocked objects and on public / private primary keys WITHOUT user id '
                '(twin derived before any add_uid, bare public-key packet loaded from bytes; add_uid too: PGPError required) vs the model decision table; '
                'private keys loaded with non-default ECDH KDF parameters (twin must carry them); '
+               'private keys with a key packet of an algorithm id without a material class (21, 0; opaque primary, or opaque private subkey under an Ed25519 / RSA primary): '
+               'PGPKey.pubkey and the subkey\'s pubkey must REFUSE with NotImplementedError (model pubkey_of = None), no half-built twin, key unchanged, private operations on the opaque primary raise; '
                'protect / unlock on public objects are warned no-ops. distinct = distinct (suite, key, stage, export hash)',
           trusted=['Spec/Rfc4880_keys.v (RFC 4880 12.2 fingerprint used on exported key packets)',
                    'hashlib SHA-1 (primitive oracle)'],
@@ -26,12 +28,14 @@ CFG = cfg('C07', extract='Ex_C07', driver='c07',
                        'of the seven operations are pinned'])
 
 TEXT = ('Rocq theorems (Props/C07.v, closed under the global context): the public packet body is the first 6+publen octets of the secret body; '
-        'non-interference: two private keys with equal public fields, identities and signatures have EQUAL public twins and exports whatever their '
-        'secret integers, S2K parameters, ciphertext, checksums, lock state and secret-packet header formats; the export of the twin exists and the '
+        'PGPKey.pubkey is partial: it refuses a private key exactly when one of its key packets holds opaque material (no octet of undivided material is exported), and every twin it produces '
+        'consists of public halves without secret part, with the private key\'s fingerprints; '
+        'non-interference: two private keys with equal public fields, identities and signatures have EQUAL public twins and exports (or are both refused) whatever their '
+        'secret integers, S2K parameters, ciphertext, checksums, lock state and secret-packet header formats; for keys of supported algorithms the twin and its export exist and the '
         'model packet splitter reads it back as exactly the twin\'s packets (uses the C09 header round-trip theorems for new- and old-format headers), '
         'all of them with tags in {6,14,13,17,2}, none 5 or 7; the exported key packets hash (RFC 4880 12.2) to the fingerprints the private key '
         'reports, identities and signature lists are unchanged; every private operation fails its KeyAction precondition on every state with '
-        'is_public (exact reason when nothing else is wrong), and on locked keys. PARTIAL: the literal "no secret octet sequence" claim is proved as '
+        'is_public (exact reason when nothing else is wrong), and on locked keys; the total getter before repair 3c1c8c6 (pubkey_of_old: empty twin of opaque material, other fingerprint) is refuted and agrees with the repaired one on supported algorithms. PARTIAL: the literal "no secret octet sequence" claim is proved as '
         'non-interference and tested by substring search. Tie: extracted model run on the fields of real private keys through histories; pinned sources.',
         'DESIGN.md 5 C07',
         'machine-checked proof in Rocq (Coq 8.16.1) + extracted-model correspondence + literal secret search')
